@@ -2237,7 +2237,10 @@ impl<'store> AnnotationStore {
                     }
 
                     for resource in remove_resources {
-                        self.remove(resource)?;
+                        //(an item can be in more than one row of the sub-query: removed once)
+                        if StoreFor::<TextResource>::has(self, resource) {
+                            self.remove(resource)?;
+                        }
                     }
                     for dataset in remove_datasets {
                         //(a data set can be in more than one row)
@@ -2253,10 +2256,16 @@ impl<'store> AnnotationStore {
                         }
                     }
                     for (set, key) in remove_keys {
-                        self.remove_key(set, key, true)?;
+                        let dataset: &AnnotationDataSet = self.get(set)?;
+                        if StoreFor::<DataKey>::has(dataset, key) {
+                            self.remove_key(set, key, true)?;
+                        }
                     }
                     for (set, data) in remove_data {
-                        self.remove_data(set, data, true)?;
+                        let dataset: &AnnotationDataSet = self.get(set)?;
+                        if StoreFor::<AnnotationData>::has(dataset, data) {
+                            self.remove_data(set, data, true)?;
+                        }
                     }
 
                     //just return an empty iterator
